@@ -164,9 +164,17 @@ class Update(object):
             'err_data': None}
 
         # get every part of the update message
-        withdraw_len = struct.unpack('!H', msg_hex[:2])[0]
+        # RFC 4271 6.3: both length fields have to fit into the message (Malformed Attribute List)
+        withdraw_len = attr_len = None
+        if len(msg_hex) >= 4:
+            withdraw_len = struct.unpack('!H', msg_hex[:2])[0]
+            if withdraw_len + 4 <= len(msg_hex):
+                attr_len = struct.unpack('!H', msg_hex[withdraw_len + 2:withdraw_len + 4])[0]
+        if attr_len is None or withdraw_len + 4 + attr_len > len(msg_hex):
+            results['sub_error'] = bgp_cons.ERR_MSG_UPDATE_MALFORMED_ATTR_LIST
+            results['err_data'] = ''
+            return results
         withdraw_prefix_data = msg_hex[2:withdraw_len + 2]
-        attr_len = struct.unpack('!H', msg_hex[withdraw_len + 2:withdraw_len + 4])[0]
         attribute_data = msg_hex[withdraw_len + 4:withdraw_len + 4 + attr_len]
         nlri_data = msg_hex[withdraw_len + 4 + attr_len:]
         try:
